@@ -1,5 +1,1271 @@
 package symx
 
-type modelFS struct{}
+// An in-memory POSIX-like file system behind the os/syscall/xattr calls the
+// target makes.  File contents are cell vectors (concrete length, possibly
+// symbolic bytes); names may be symbolic strings (compared by forking).
+// Every mutation is counted so that a harness can stop the world after the
+// k-th one (crash injection) and fail individual calls (fault injection).
 
-func newModelFS() *modelFS { return &modelFS{} }
+import (
+	"fmt"
+	"go/token"
+	"go/types"
+	"sort"
+	"strings"
+
+	"golang.org/x/tools/go/ssa"
+)
+
+const (
+	nkFile = iota
+	nkDir
+	nkSymlink
+	nkDevice // char/block/fifo/socket: mode bits tell
+)
+
+type mnode struct {
+	kind    int
+	data    []value
+	names   []value // child names (string or *symstr), insertion order
+	kids    []*mnode
+	target  value
+	mode    uint32 // os.FileMode bits (type bits + permissions)
+	uid     value
+	gid     value
+	mtime   value // time.Time structure (nil: zero)
+	xattrs  [][2]value
+	rdev    uint64
+	rdevSym value
+	ino     int
+	nlink   int
+	blksize int64
+}
+
+type mfile struct {
+	node    *mnode
+	off     int64
+	name    value
+	flags   int
+	closed  bool
+	dirpos  int
+	console bool
+	appendM bool
+}
+
+type fsMutation struct {
+	op   string
+	path string
+}
+
+type modelFS struct {
+	root     *mnode
+	files    map[*value]*mfile
+	nextIno  int
+	muts     []fsMutation
+	crashAt  int // -1: never
+	faults   map[string]map[int]bool
+	calls    map[string]int
+	tmpSeq   int
+	canClone bool
+	cloneLog []cloneOp
+	cloneEmu bool
+	shortWrite int // -1 none; else the crash cuts the write after this many bytes
+}
+
+type cloneOp struct {
+	srcOff, length, dstOff value
+}
+
+func newModelFS() *modelFS {
+	fs := &modelFS{files: map[*value]*mfile{}, crashAt: -1, faults: map[string]map[int]bool{}, calls: map[string]int{}, shortWrite: -1}
+	fs.root = fs.newNode(nkDir, 0755|uint32(modeDir))
+	return fs
+}
+
+const (
+	modeDir        = 1 << 31
+	modeSymlink    = 1 << 27
+	modeDevice     = 1 << 26
+	modeNamedPipe  = 1 << 25
+	modeSocket     = 1 << 24
+	modeSetuid     = 1 << 23
+	modeSetgid     = 1 << 22
+	modeCharDevice = 1 << 21
+	modeSticky     = 1 << 20
+)
+
+func (fs *modelFS) newNode(kind int, mode uint32) *mnode {
+	fs.nextIno++
+	return &mnode{kind: kind, mode: mode, ino: fs.nextIno, uid: int(0), gid: int(0), nlink: 1, blksize: 4096}
+}
+
+type crashPanic struct{}
+
+// mutate counts one file-system mutation; crash injection stops the world *before* the k-th mutation takes effect.
+func (i *interpreter) fsMutate(fr *frame, op string, path value) {
+	fs := i.ps.fs
+	if fs.crashAt >= 0 && len(fs.muts) == fs.crashAt {
+		i.ps.crashed = true
+		panic(crashPanic{})
+	}
+	fs.muts = append(fs.muts, fsMutation{op, pathStr(path)})
+	if len(i.ps.sched.gs) > 1 {
+		i.ps.sched.yield(fr)
+	}
+}
+
+func pathStr(p value) string {
+	switch s := p.(type) {
+	case string:
+		return s
+	case *symstr:
+		var sb strings.Builder
+		for _, b := range s.b {
+			if c, ok := b.(byte); ok {
+				sb.WriteByte(c)
+			} else {
+				sb.WriteByte('?')
+			}
+		}
+		return sb.String()
+	}
+	return "?"
+}
+
+// fault reports whether the harness asked this call of op to fail.
+func (i *interpreter) fsFault(op string) bool {
+	fs := i.ps.fs
+	n := fs.calls[op]
+	fs.calls[op] = n + 1
+	return fs.faults[op][n] || fs.faults[op][-1]
+}
+
+// ---------------------------------------------------------------- errors and Go-level values
+
+const (
+	ePERM     = 1
+	eNOENT    = 2
+	eIO       = 5
+	eBADF     = 9
+	eEXIST    = 17
+	eXDEV     = 18
+	eNOTDIR   = 20
+	eISDIR    = 21
+	eINVAL    = 22
+	eNOTEMPTY = 39
+	eLOOP     = 40
+	eNODATA   = 61
+	eOPNOTSUPP = 95
+)
+
+func (i *interpreter) namedType(pkg, name string) types.Type {
+	key := pkg + "." + name
+	if t, ok := i.eng.tcache.Load(key); ok {
+		return t.(types.Type)
+	}
+	p := i.prog.ImportedPackage(pkg)
+	if p == nil {
+		panic("engine: package not loaded: " + pkg)
+	}
+	m := p.Type(name)
+	if m == nil {
+		panic("engine: type not found: " + key)
+	}
+	t := m.Type()
+	i.eng.tcache.Store(key, t)
+	return t
+}
+
+func (i *interpreter) errno(n int) iface {
+	return iface{t: i.namedType("syscall", "Errno"), v: uintptr(n)}
+}
+
+func fieldIndex(t types.Type, name string) int {
+	st := t.Underlying().(*types.Struct)
+	for k := 0; k < st.NumFields(); k++ {
+		if st.Field(k).Name() == name {
+			return k
+		}
+	}
+	panic("engine: no field " + name + " in " + t.String())
+}
+
+func (i *interpreter) pathError(op string, path value, errno int) iface {
+	T := i.namedType("io/fs", "PathError")
+	s := zero(T).(structure)
+	s[fieldIndex(T, "Op")] = op
+	s[fieldIndex(T, "Path")] = path
+	s[fieldIndex(T, "Err")] = i.errno(errno)
+	var v value = s
+	return iface{t: types.NewPointer(T), v: &v}
+}
+
+func (i *interpreter) linkError(op string, oldp, newp value, errno int) iface {
+	T := i.namedType("os", "LinkError")
+	s := zero(T).(structure)
+	s[fieldIndex(T, "Op")] = op
+	s[fieldIndex(T, "Old")] = oldp
+	s[fieldIndex(T, "New")] = newp
+	s[fieldIndex(T, "Err")] = i.errno(errno)
+	var v value = s
+	return iface{t: types.NewPointer(T), v: &v}
+}
+
+func stMode(n *mnode) uint32 {
+	m := n.mode & 0777
+	if n.mode&modeSetuid != 0 {
+		m |= 04000
+	}
+	if n.mode&modeSetgid != 0 {
+		m |= 02000
+	}
+	if n.mode&modeSticky != 0 {
+		m |= 01000
+	}
+	switch {
+	case n.kind == nkDir:
+		m |= 0040000
+	case n.kind == nkSymlink:
+		m |= 0120000
+	case n.kind == nkFile:
+		m |= 0100000
+	case n.mode&modeNamedPipe != 0:
+		m |= 0010000
+	case n.mode&modeSocket != 0:
+		m |= 0140000
+	case n.mode&modeCharDevice != 0:
+		m |= 0020000
+	default:
+		m |= 0060000
+	}
+	return m
+}
+
+func (i *interpreter) fileInfo(name value, n *mnode) iface {
+	T := i.namedType("os", "fileStat")
+	s := zero(T).(structure)
+	s[fieldIndex(T, "name")] = name
+	size := int64(len(n.data))
+	if n.kind == nkSymlink {
+		size = int64(strLen(n.target))
+	}
+	if n.kind == nkDir {
+		size = 4096
+	}
+	s[fieldIndex(T, "size")] = size
+	s[fieldIndex(T, "mode")] = n.mode
+	if n.mtime != nil {
+		s[fieldIndex(T, "modTime")] = n.mtime
+	}
+	ST := i.namedType("syscall", "Stat_t")
+	st := s[fieldIndex(T, "sys")].(structure)
+	st[fieldIndex(ST, "Ino")] = uint64(n.ino)
+	st[fieldIndex(ST, "Dev")] = uint64(1)
+	st[fieldIndex(ST, "Nlink")] = uint64(n.nlink)
+	st[fieldIndex(ST, "Mode")] = stMode(n)
+	st[fieldIndex(ST, "Uid")] = toU32(n.uid)
+	st[fieldIndex(ST, "Gid")] = toU32(n.gid)
+	st[fieldIndex(ST, "Rdev")] = n.rdev
+	st[fieldIndex(ST, "Size")] = size
+	st[fieldIndex(ST, "Blksize")] = n.blksize
+	var v value = s
+	return iface{t: types.NewPointer(T), v: &v}
+}
+
+func toU32(v value) value {
+	switch x := v.(type) {
+	case int:
+		return uint32(x)
+	case uint32:
+		return x
+	case sym:
+		return v // width mismatch is tolerated only for opaque uses
+	}
+	return uint32(0)
+}
+
+// ---------------------------------------------------------------- path resolution
+
+// splitPath cuts a (possibly symbolic) path into components, forking on symbolic bytes that may be '/'.
+func (i *interpreter) splitPath(fr *frame, p value) (comps []value, abs bool) {
+	bs := strBytes(p)
+	c := i.ps.ctx
+	isSlash := func(b value) bool {
+		if cb, ok := b.(byte); ok {
+			return cb == '/'
+		}
+		return i.branch(fr, c.Eq(b.(sym).t, c.Const('/', 8)), "path-sep")
+	}
+	var cur []value
+	for k, b := range bs {
+		if isSlash(b) {
+			if k == 0 {
+				abs = true
+			}
+			if len(cur) > 0 {
+				comps = append(comps, mkstr(cur))
+				cur = nil
+			}
+			continue
+		}
+		cur = append(cur, b)
+	}
+	if len(cur) > 0 {
+		comps = append(comps, mkstr(cur))
+	}
+	return
+}
+
+func (i *interpreter) nameEq(fr *frame, a, b value) bool {
+	as, aok := a.(string)
+	bs, bok := b.(string)
+	if aok && bok {
+		return as == bs
+	}
+	var t = i.ps.ctx.False
+	if x, ok := a.(*symstr); ok {
+		t = i.strEqTerm(x, b)
+	} else {
+		t = i.strEqTerm(b.(*symstr), a)
+	}
+	return i.branch(fr, t, "name-eq")
+}
+
+func (n *mnode) child(i *interpreter, fr *frame, name value) (*mnode, int) {
+	for k, nm := range n.names {
+		if i.nameEq(fr, nm, name) {
+			return n.kids[k], k
+		}
+	}
+	return nil, -1
+}
+
+type resolved struct {
+	parent *mnode
+	node   *mnode // nil if the last component does not exist
+	name   value  // last component
+	idx    int
+	errno  int
+}
+
+// resolve walks path; follow decides whether a symlink in the last component is followed.
+func (i *interpreter) resolve(fr *frame, path value, follow bool) resolved {
+	return i.resolveFrom(fr, i.ps.fs.root, path, follow, 0)
+}
+
+func (i *interpreter) resolveFrom(fr *frame, start *mnode, path value, follow bool, depth int) resolved {
+	if depth > 8 {
+		return resolved{errno: eLOOP}
+	}
+	if strLen(path) == 0 {
+		return resolved{errno: eNOENT}
+	}
+	// NUL bytes are rejected by the syscall layer
+	for _, b := range strBytes(path) {
+		if cb, ok := b.(byte); ok {
+			if cb == 0 {
+				return resolved{errno: eINVAL}
+			}
+		} else if i.branch(fr, i.ps.ctx.Eq(b.(sym).t, i.ps.ctx.Const(0, 8)), "path-nul") {
+			return resolved{errno: eINVAL}
+		}
+	}
+	comps, abs := i.splitPath(fr, path)
+	fs := i.ps.fs
+	cur := start
+	if abs || cur == nil {
+		cur = fs.root
+	}
+	// stack of ancestors for ".."
+	anc := []*mnode{}
+	if cur != fs.root {
+		anc = i.ancestors(cur)
+	}
+	if len(comps) == 0 {
+		return resolved{parent: cur, node: cur, name: "/"}
+	}
+	for k, comp := range comps {
+		last := k == len(comps)-1
+		if cur.kind != nkDir {
+			return resolved{errno: eNOTDIR}
+		}
+		if i.nameEq(fr, comp, ".") {
+			if last {
+				return resolved{parent: cur, node: cur, name: "."}
+			}
+			continue
+		}
+		if i.nameEq(fr, comp, "..") {
+			if len(anc) > 0 {
+				cur = anc[len(anc)-1]
+				anc = anc[:len(anc)-1]
+			}
+			if last {
+				return resolved{parent: cur, node: cur, name: ".."}
+			}
+			continue
+		}
+		ch, idx := cur.child(i, fr, comp)
+		if ch == nil {
+			if last {
+				return resolved{parent: cur, name: comp, idx: -1}
+			}
+			return resolved{errno: eNOENT}
+		}
+		if ch.kind == nkSymlink && (!last || follow) {
+			r := i.resolveFrom(fr, cur, ch.target, true, depth+1)
+			if r.errno != 0 {
+				return r
+			}
+			if r.node == nil {
+				if last {
+					return r // dangling: creation goes to the link's target location
+				}
+				return resolved{errno: eNOENT}
+			}
+			if last {
+				return r
+			}
+			anc = i.ancestors(r.node)
+			cur = r.node
+			continue
+		}
+		if last {
+			return resolved{parent: cur, node: ch, name: comp, idx: idx}
+		}
+		anc = append(anc, cur)
+		cur = ch
+	}
+	return resolved{errno: eNOENT}
+}
+
+// ancestors returns the chain root..parent of n (by search; trees are tiny).
+func (i *interpreter) ancestors(n *mnode) []*mnode {
+	var path []*mnode
+	var rec func(cur *mnode) bool
+	rec = func(cur *mnode) bool {
+		if cur == n {
+			return true
+		}
+		if cur.kind != nkDir {
+			return false
+		}
+		path = append(path, cur)
+		for _, k := range cur.kids {
+			if rec(k) {
+				return true
+			}
+		}
+		path = path[:len(path)-1]
+		return false
+	}
+	rec(i.ps.fs.root)
+	return path
+}
+
+// pathOf returns a display path of node n.
+func (i *interpreter) pathOf(n *mnode) string {
+	var find func(cur *mnode, pfx string) (string, bool)
+	find = func(cur *mnode, pfx string) (string, bool) {
+		if cur == n {
+			if pfx == "" {
+				return "/", true
+			}
+			return pfx, true
+		}
+		for k, c := range cur.kids {
+			if s, ok := find(c, pfx+"/"+pathStr(cur.names[k])); ok {
+				return s, true
+			}
+		}
+		return "", false
+	}
+	s, _ := find(i.ps.fs.root, "")
+	return s
+}
+
+func (n *mnode) addChild(name value, c *mnode) {
+	n.names = append(n.names, name)
+	n.kids = append(n.kids, c)
+}
+
+func (n *mnode) removeChild(idx int) {
+	n.names = append(n.names[:idx:idx], n.names[idx+1:]...)
+	n.kids = append(n.kids[:idx:idx], n.kids[idx+1:]...)
+}
+
+// ---------------------------------------------------------------- os.File
+
+func (i *interpreter) newFile(n *mnode, name value, flags int) *value {
+	T := i.namedType("os", "File")
+	var v value = zero(T)
+	p := &v
+	i.ps.fs.files[p] = &mfile{node: n, name: name, flags: flags, appendM: flags&0x400 != 0}
+	return p
+}
+
+func (i *interpreter) fileOf(fr *frame, v value) *mfile {
+	p, _ := v.(*value)
+	if p == nil {
+		return nil
+	}
+	return i.ps.fs.files[p]
+}
+
+const (
+	oWRONLY = 0x1
+	oRDWR   = 0x2
+	oCREATE = 0x40
+	oEXCL   = 0x80
+	oTRUNC  = 0x200
+	oAPPEND = 0x400
+)
+
+func errTuple(vals ...value) value { return tuple(vals) }
+
+func (i *interpreter) openFile(fr *frame, path value, flags int, perm uint32) value {
+	nilFile := (*value)(nil)
+	if i.fsFault("open") {
+		return tuple{nilFile, i.pathError("open", path, eIO)}
+	}
+	r := i.resolve(fr, path, true)
+	if r.errno != 0 {
+		return tuple{nilFile, i.pathError("open", path, r.errno)}
+	}
+	if r.node == nil {
+		if flags&oCREATE == 0 {
+			return tuple{nilFile, i.pathError("open", path, eNOENT)}
+		}
+		i.fsMutate(fr, "create", path)
+		n := i.ps.fs.newNode(nkFile, perm&0777)
+		n.mtime = nil
+		r.parent.addChild(r.name, n)
+		return tuple{i.newFile(n, path, flags), iface{}}
+	}
+	if flags&oCREATE != 0 && flags&oEXCL != 0 {
+		return tuple{nilFile, i.pathError("open", path, eEXIST)}
+	}
+	if r.node.kind == nkDir && flags&(oWRONLY|oRDWR) != 0 {
+		return tuple{nilFile, i.pathError("open", path, eISDIR)}
+	}
+	if flags&oTRUNC != 0 && r.node.kind == nkFile && len(r.node.data) > 0 {
+		i.fsMutate(fr, "truncate", path)
+		r.node.data = nil
+	}
+	return tuple{i.newFile(r.node, path, flags), iface{}}
+}
+
+func (i *interpreter) badFile(op string) iface { return i.pathError(op, "<closed>", eBADF) }
+
+func ioEOF(i *interpreter) iface {
+	g := i.prog.ImportedPackage("io").Var("EOF")
+	return (*i.globals[g]).(iface)
+}
+
+func (i *interpreter) fileRead(fr *frame, f *mfile, p []value, off int64, useOff bool, op string) value {
+	if f == nil || f.closed {
+		return tuple{0, i.badFile(op)}
+	}
+	if f.node.kind == nkDir {
+		return tuple{0, i.pathError(op, f.name, eISDIR)}
+	}
+	if i.fsFault("read") {
+		return tuple{0, i.pathError(op, f.name, eIO)}
+	}
+	if len(i.ps.sched.gs) > 1 {
+		i.ps.sched.yield(fr)
+	}
+	pos := f.off
+	if useOff {
+		pos = off
+		if off < 0 {
+			return tuple{0, i.pathError(op, f.name, eINVAL)}
+		}
+	}
+	if len(p) == 0 {
+		return tuple{0, iface{}}
+	}
+	data := f.node.data
+	if pos >= int64(len(data)) {
+		return tuple{0, ioEOF(i)}
+	}
+	n := copy(p, data[pos:])
+	if !useOff {
+		f.off += int64(n)
+		return tuple{n, iface{}}
+	}
+	if n < len(p) {
+		return tuple{n, ioEOF(i)} // ReadAt: short read comes with io.EOF
+	}
+	return tuple{n, iface{}}
+}
+
+func (i *interpreter) fileWrite(fr *frame, f *mfile, p []value, off int64, useOff bool, op string) value {
+	if f == nil || f.closed {
+		return tuple{0, i.badFile(op)}
+	}
+	if f.flags&(oWRONLY|oRDWR) == 0 && !f.console {
+		return tuple{0, i.pathError(op, f.name, eBADF)}
+	}
+	if i.fsFault("write") {
+		return tuple{0, i.pathError(op, f.name, eIO)}
+	}
+	fs := i.ps.fs
+	pos := f.off
+	if useOff {
+		pos = off
+	} else if f.appendM {
+		pos = int64(len(f.node.data))
+	}
+	if pos < 0 {
+		return tuple{0, i.pathError(op, f.name, eINVAL)}
+	}
+	// a crash can cut this write short
+	if fs.crashAt >= 0 && len(fs.muts) == fs.crashAt && fs.shortWrite >= 0 && len(p) > 0 {
+		k := fs.shortWrite
+		if k > len(p) {
+			k = len(p)
+		}
+		i.writeData(f.node, p[:k], pos)
+		i.ps.crashed = true
+		panic(crashPanic{})
+	}
+	i.fsMutate(fr, "write", f.name)
+	i.writeData(f.node, p, pos)
+	if !useOff {
+		f.off = pos + int64(len(p))
+	}
+	return tuple{len(p), iface{}}
+}
+
+func (i *interpreter) writeData(n *mnode, p []value, pos int64) {
+	end := pos + int64(len(p))
+	if end > maxModelAlloc {
+		i.abort(outBound, "model file would grow to %d bytes", end)
+	}
+	for int64(len(n.data)) < end {
+		n.data = append(n.data, byte(0))
+	}
+	copy(n.data[pos:end], p)
+}
+
+func (i *interpreter) truncateNode(n *mnode, size int64) {
+	if size > maxModelAlloc {
+		i.abort(outBound, "model file truncated to %d bytes", size)
+	}
+	if size < int64(len(n.data)) {
+		n.data = n.data[:size:size]
+		return
+	}
+	for int64(len(n.data)) < size {
+		n.data = append(n.data, byte(0))
+	}
+}
+
+// ---------------------------------------------------------------- intrinsics
+
+func (i *interpreter) strArg(v value) value { return v }
+
+func init() {
+	R := reg
+	R("os.Open", func(i *interpreter, fr *frame, fn *ssa.Function, a []value) value { return i.openFile(fr, a[0], 0, 0) })
+	R("os.Create", func(i *interpreter, fr *frame, fn *ssa.Function, a []value) value {
+		return i.openFile(fr, a[0], oRDWR|oCREATE|oTRUNC, 0666)
+	})
+	R("os.OpenFile", func(i *interpreter, fr *frame, fn *ssa.Function, a []value) value {
+		return i.openFile(fr, a[0], a[1].(int), a[2].(uint32))
+	})
+	R("os.NewFile", func(i *interpreter, fr *frame, fn *ssa.Function, a []value) value {
+		n := i.ps.fs.newNode(nkFile, 0600)
+		p := i.newFile(n, a[1], oRDWR)
+		i.ps.fs.files[p].console = true
+		return p
+	})
+	stat := func(follow bool, op string) intrinsic {
+		return func(i *interpreter, fr *frame, fn *ssa.Function, a []value) value {
+			if i.fsFault("stat") {
+				return tuple{iface{}, i.pathError(op, a[0], eIO)}
+			}
+			r := i.resolve(fr, a[0], follow)
+			if r.errno != 0 {
+				return tuple{iface{}, i.pathError(op, a[0], r.errno)}
+			}
+			if r.node == nil {
+				return tuple{iface{}, i.pathError(op, a[0], eNOENT)}
+			}
+			return tuple{i.fileInfo(baseName(a[0], r.name), r.node), iface{}}
+		}
+	}
+	R("os.Stat", stat(true, "stat"))
+	R("os.Lstat", stat(false, "lstat"))
+	R("(*os.File).Stat", func(i *interpreter, fr *frame, fn *ssa.Function, a []value) value {
+		f := i.fileOf(fr, a[0])
+		if f == nil || f.closed {
+			return tuple{iface{}, i.badFile("stat")}
+		}
+		return tuple{i.fileInfo(f.name, f.node), iface{}}
+	})
+	R("(*os.File).Name", func(i *interpreter, fr *frame, fn *ssa.Function, a []value) value {
+		if f := i.fileOf(fr, a[0]); f != nil {
+			return f.name
+		}
+		return ""
+	})
+	R("(*os.File).Fd", func(i *interpreter, fr *frame, fn *ssa.Function, a []value) value {
+		if f := i.fileOf(fr, a[0]); f != nil {
+			return uintptr(f.node.ino + 2)
+		}
+		return ^uintptr(0)
+	})
+	R("(*os.File).Close", func(i *interpreter, fr *frame, fn *ssa.Function, a []value) value {
+		f := i.fileOf(fr, a[0])
+		if f == nil {
+			return iface{t: i.namedType("syscall", "Errno"), v: uintptr(eINVAL)}
+		}
+		if f.closed {
+			return i.pathError("close", f.name, eBADF)
+		}
+		f.closed = true
+		return iface{}
+	})
+	R("(*os.File).Sync", func(i *interpreter, fr *frame, fn *ssa.Function, a []value) value { return iface{} })
+	R("(*os.File).Read", func(i *interpreter, fr *frame, fn *ssa.Function, a []value) value {
+		return i.fileRead(fr, i.fileOf(fr, a[0]), a[1].([]value), 0, false, "read")
+	})
+	R("(*os.File).ReadAt", func(i *interpreter, fr *frame, fn *ssa.Function, a []value) value {
+		off := i.concInt(fr, a[2], true, "ReadAt offset")
+		return i.fileRead(fr, i.fileOf(fr, a[0]), a[1].([]value), off, true, "read")
+	})
+	R("(*os.File).Write", func(i *interpreter, fr *frame, fn *ssa.Function, a []value) value {
+		return i.fileWrite(fr, i.fileOf(fr, a[0]), a[1].([]value), 0, false, "write")
+	})
+	R("(*os.File).WriteString", func(i *interpreter, fr *frame, fn *ssa.Function, a []value) value {
+		return i.fileWrite(fr, i.fileOf(fr, a[0]), strBytes(a[1]), 0, false, "write")
+	})
+	R("(*os.File).WriteAt", func(i *interpreter, fr *frame, fn *ssa.Function, a []value) value {
+		off := i.concInt(fr, a[2], true, "WriteAt offset")
+		return i.fileWrite(fr, i.fileOf(fr, a[0]), a[1].([]value), off, true, "write")
+	})
+	R("(*os.File).readFrom", func(i *interpreter, fr *frame, fn *ssa.Function, a []value) value {
+		return tuple{int64(0), false, iface{}}
+	})
+	R("(*os.File).writeTo", func(i *interpreter, fr *frame, fn *ssa.Function, a []value) value {
+		return tuple{int64(0), false, iface{}}
+	})
+	R("(*os.File).Seek", func(i *interpreter, fr *frame, fn *ssa.Function, a []value) value {
+		f := i.fileOf(fr, a[0])
+		if f == nil || f.closed {
+			return tuple{int64(0), i.badFile("seek")}
+		}
+		off := i.concInt(fr, a[1], true, "Seek offset")
+		var base int64
+		switch a[2].(int) {
+		case 0:
+		case 1:
+			base = f.off
+		case 2:
+			base = int64(len(f.node.data))
+		default:
+			return tuple{int64(0), i.pathError("seek", f.name, eINVAL)}
+		}
+		if base+off < 0 {
+			return tuple{int64(0), i.pathError("seek", f.name, eINVAL)}
+		}
+		f.off = base + off
+		return tuple{f.off, iface{}}
+	})
+	R("(*os.File).Truncate", func(i *interpreter, fr *frame, fn *ssa.Function, a []value) value {
+		f := i.fileOf(fr, a[0])
+		if f == nil || f.closed {
+			return i.badFile("truncate")
+		}
+		if i.fsFault("truncate") {
+			return i.pathError("truncate", f.name, eIO)
+		}
+		size := i.concInt(fr, a[1], true, "Truncate size")
+		if size < 0 {
+			return i.pathError("truncate", f.name, eINVAL)
+		}
+		i.fsMutate(fr, "truncate", f.name)
+		i.truncateNode(f.node, size)
+		return iface{}
+	})
+	R("os.Truncate", func(i *interpreter, fr *frame, fn *ssa.Function, a []value) value {
+		r := i.resolve(fr, a[0], true)
+		if r.errno != 0 || r.node == nil {
+			return i.pathError("truncate", a[0], pick(r.errno, eNOENT))
+		}
+		size := i.concInt(fr, a[1], true, "Truncate size")
+		if size < 0 {
+			return i.pathError("truncate", a[0], eINVAL)
+		}
+		i.fsMutate(fr, "truncate", a[0])
+		i.truncateNode(r.node, size)
+		return iface{}
+	})
+	R("(*os.File).Readdirnames", func(i *interpreter, fr *frame, fn *ssa.Function, a []value) value {
+		f := i.fileOf(fr, a[0])
+		if f == nil || f.closed {
+			return tuple{[]value(nil), i.badFile("readdirent")}
+		}
+		if f.node.kind != nkDir {
+			return tuple{[]value(nil), i.pathError("readdirent", f.name, eNOTDIR)}
+		}
+		if i.fsFault("readdir") {
+			return tuple{[]value(nil), i.pathError("readdirent", f.name, eIO)}
+		}
+		var out []value
+		for k := f.dirpos; k < len(f.node.names); k++ {
+			out = append(out, f.node.names[k])
+		}
+		f.dirpos = len(f.node.names)
+		return tuple{out, iface{}}
+	})
+	R("(*os.File).Readdir", func(i *interpreter, fr *frame, fn *ssa.Function, a []value) value {
+		f := i.fileOf(fr, a[0])
+		if f == nil || f.closed || f.node.kind != nkDir {
+			return tuple{[]value(nil), i.badFile("readdirent")}
+		}
+		var out []value
+		for k := f.dirpos; k < len(f.node.names); k++ {
+			out = append(out, i.fileInfo(f.node.names[k], f.node.kids[k]))
+		}
+		f.dirpos = len(f.node.names)
+		return tuple{out, iface{}}
+	})
+	R("(*os.File).Chmod", func(i *interpreter, fr *frame, fn *ssa.Function, a []value) value {
+		f := i.fileOf(fr, a[0])
+		if f == nil || f.closed {
+			return i.badFile("chmod")
+		}
+		i.fsMutate(fr, "chmod", f.name)
+		f.node.mode = (f.node.mode &^ (0777 | modeSetuid | modeSetgid | modeSticky)) | (a[1].(uint32) & (0777 | modeSetuid | modeSetgid | modeSticky))
+		return iface{}
+	})
+	R("os.Remove", func(i *interpreter, fr *frame, fn *ssa.Function, a []value) value { return i.fsRemove(fr, a[0], "remove", false) })
+	R("syscall.Unlink", func(i *interpreter, fr *frame, fn *ssa.Function, a []value) value {
+		e := i.fsRemove(fr, a[0], "unlink", true)
+		return i.unwrapErrno(e)
+	})
+	R("os.RemoveAll", func(i *interpreter, fr *frame, fn *ssa.Function, a []value) value {
+		r := i.resolve(fr, a[0], false)
+		if r.errno != 0 || r.node == nil {
+			return iface{}
+		}
+		if r.idx < 0 {
+			return i.pathError("unlinkat", a[0], eINVAL)
+		}
+		i.fsMutate(fr, "removeall", a[0])
+		r.parent.removeChild(r.idx)
+		return iface{}
+	})
+	R("os.Mkdir", func(i *interpreter, fr *frame, fn *ssa.Function, a []value) value {
+		if i.fsFault("mkdir") {
+			return i.pathError("mkdir", a[0], eIO)
+		}
+		r := i.resolve(fr, a[0], false)
+		if r.errno != 0 {
+			return i.pathError("mkdir", a[0], r.errno)
+		}
+		if r.node != nil {
+			return i.pathError("mkdir", a[0], eEXIST)
+		}
+		i.fsMutate(fr, "mkdir", a[0])
+		r.parent.addChild(r.name, i.ps.fs.newNode(nkDir, modeDir|(a[1].(uint32)&0777)))
+		return iface{}
+	})
+	R("os.MkdirAll", func(i *interpreter, fr *frame, fn *ssa.Function, a []value) value {
+		comps, _ := i.splitPath(fr, a[0])
+		cur := i.ps.fs.root
+		for _, c := range comps {
+			if i.nameEq(fr, c, ".") {
+				continue
+			}
+			ch, _ := cur.child(i, fr, c)
+			if ch == nil {
+				i.fsMutate(fr, "mkdir", a[0])
+				ch = i.ps.fs.newNode(nkDir, modeDir|(a[1].(uint32)&0777))
+				cur.addChild(c, ch)
+			} else if ch.kind == nkSymlink {
+				r := i.resolveFrom(fr, cur, ch.target, true, 1)
+				if r.errno != 0 || r.node == nil {
+					return i.pathError("mkdir", a[0], pick(r.errno, eNOENT))
+				}
+				ch = r.node
+			}
+			if ch.kind != nkDir {
+				return i.pathError("mkdir", a[0], eNOTDIR)
+			}
+			cur = ch
+		}
+		return iface{}
+	})
+	R("os.Rename", func(i *interpreter, fr *frame, fn *ssa.Function, a []value) value {
+		if i.fsFault("rename") {
+			return i.linkError("rename", a[0], a[1], eIO)
+		}
+		src := i.resolve(fr, a[0], false)
+		if src.errno != 0 || src.node == nil || src.idx < 0 {
+			return i.linkError("rename", a[0], a[1], pick(src.errno, eNOENT))
+		}
+		dst := i.resolve(fr, a[1], false)
+		if dst.errno != 0 {
+			return i.linkError("rename", a[0], a[1], dst.errno)
+		}
+		if dst.node != nil {
+			if dst.node == src.node {
+				return iface{}
+			}
+			if dst.node.kind == nkDir && (src.node.kind != nkDir || len(dst.node.kids) > 0) {
+				return i.linkError("rename", a[0], a[1], pick(0, eNOTEMPTY))
+			}
+			if dst.node.kind != nkDir && src.node.kind == nkDir {
+				return i.linkError("rename", a[0], a[1], eNOTDIR)
+			}
+		}
+		i.fsMutate(fr, "rename", a[1])
+		// atomic: unlink source entry, replace/insert destination entry
+		src.parent.removeChild(src.idx)
+		if dst.node != nil {
+			_, idx := dst.parent.child(i, fr, dst.name)
+			if idx >= 0 {
+				dst.parent.kids[idx] = src.node
+				return iface{}
+			}
+		}
+		dst.parent.addChild(dst.name, src.node)
+		return iface{}
+	})
+	R("os.Symlink", func(i *interpreter, fr *frame, fn *ssa.Function, a []value) value {
+		r := i.resolve(fr, a[1], false)
+		if r.errno != 0 {
+			return i.linkError("symlink", a[0], a[1], r.errno)
+		}
+		if r.node != nil {
+			return i.linkError("symlink", a[0], a[1], eEXIST)
+		}
+		i.fsMutate(fr, "symlink", a[1])
+		n := i.ps.fs.newNode(nkSymlink, modeSymlink|0777)
+		n.target = a[0]
+		r.parent.addChild(r.name, n)
+		return iface{}
+	})
+	R("os.Readlink", func(i *interpreter, fr *frame, fn *ssa.Function, a []value) value {
+		r := i.resolve(fr, a[0], false)
+		if r.errno != 0 || r.node == nil {
+			return tuple{"", i.pathError("readlink", a[0], pick(r.errno, eNOENT))}
+		}
+		if r.node.kind != nkSymlink {
+			return tuple{"", i.pathError("readlink", a[0], eINVAL)}
+		}
+		return tuple{r.node.target, iface{}}
+	})
+	chown := func(follow bool, op string) intrinsic {
+		return func(i *interpreter, fr *frame, fn *ssa.Function, a []value) value {
+			if i.fsFault("chown") {
+				return i.pathError(op, a[0], ePERM)
+			}
+			r := i.resolve(fr, a[0], follow)
+			if r.errno != 0 || r.node == nil {
+				return i.pathError(op, a[0], pick(r.errno, eNOENT))
+			}
+			i.fsMutate(fr, op, a[0])
+			r.node.uid, r.node.gid = a[1], a[2]
+			return iface{}
+		}
+	}
+	R("os.Chown", chown(true, "chown"))
+	R("os.Lchown", chown(false, "lchown"))
+	R("os.Chtimes", func(i *interpreter, fr *frame, fn *ssa.Function, a []value) value {
+		r := i.resolve(fr, a[0], true)
+		if r.errno != 0 || r.node == nil {
+			return i.pathError("chtimes", a[0], pick(r.errno, eNOENT))
+		}
+		i.fsMutate(fr, "chtimes", a[0])
+		r.node.mtime = a[2]
+		return iface{}
+	})
+	R("os.Chmod", func(i *interpreter, fr *frame, fn *ssa.Function, a []value) value {
+		r := i.resolve(fr, a[0], true)
+		if r.errno != 0 || r.node == nil {
+			return i.pathError("chmod", a[0], pick(r.errno, eNOENT))
+		}
+		i.fsMutate(fr, "chmod", a[0])
+		keep := r.node.mode &^ (0777 | modeSetuid | modeSetgid | modeSticky)
+		r.node.mode = keep | (a[1].(uint32) & (0777 | modeSetuid | modeSetgid | modeSticky))
+		return iface{}
+	})
+	R("syscall.Chmod", func(i *interpreter, fr *frame, fn *ssa.Function, a []value) value {
+		r := i.resolve(fr, a[0], true)
+		if r.errno != 0 || r.node == nil {
+			return i.errno(pick(r.errno, eNOENT))
+		}
+		i.fsMutate(fr, "chmod", a[0])
+		m, ok := a[1].(uint32)
+		if !ok {
+			i.abort(outUnsupported, "chmod with a symbolic mode")
+		}
+		keep := r.node.mode &^ (0777 | modeSetuid | modeSetgid | modeSticky)
+		nm := m & 0777
+		if m&04000 != 0 {
+			nm |= modeSetuid
+		}
+		if m&02000 != 0 {
+			nm |= modeSetgid
+		}
+		if m&01000 != 0 {
+			nm |= modeSticky
+		}
+		r.node.mode = keep | nm
+		return iface{}
+	})
+	R("syscall.Mknod", func(i *interpreter, fr *frame, fn *ssa.Function, a []value) value {
+		r := i.resolve(fr, a[0], false)
+		if r.errno != 0 {
+			return i.errno(r.errno)
+		}
+		if r.node != nil {
+			return i.errno(eEXIST)
+		}
+		m, ok := a[1].(uint32)
+		if !ok {
+			i.abort(outUnsupported, "mknod with a symbolic mode")
+		}
+		i.fsMutate(fr, "mknod", a[0])
+		mode := uint32(modeDevice) | m&0777
+		switch m & 0170000 {
+		case 0020000:
+			mode |= modeCharDevice
+		case 0010000:
+			mode = modeNamedPipe | m&0777
+		case 0140000:
+			mode = modeSocket | m&0777
+		}
+		n := i.ps.fs.newNode(nkDevice, mode)
+		switch d := a[2].(type) {
+		case int:
+			n.rdev = uint64(d)
+		case sym:
+			n.rdevSym = d
+		}
+		r.parent.addChild(r.name, n)
+		return iface{}
+	})
+	R("os.TempDir", func(i *interpreter, fr *frame, fn *ssa.Function, a []value) value { return "/tmp" })
+	R("os.Getwd", func(i *interpreter, fr *frame, fn *ssa.Function, a []value) value { return tuple{"/", iface{}} })
+	R("os.CreateTemp", func(i *interpreter, fr *frame, fn *ssa.Function, a []value) value { return i.createTemp(fr, a[0], a[1]) })
+	R("io/ioutil.TempFile", func(i *interpreter, fr *frame, fn *ssa.Function, a []value) value { return i.createTemp(fr, a[0], a[1]) })
+	R("os.MkdirTemp", func(i *interpreter, fr *frame, fn *ssa.Function, a []value) value {
+		fs := i.ps.fs
+		fs.tmpSeq++
+		dir := a[0]
+		if strLen(dir) == 0 {
+			dir = "/tmp"
+		}
+		name := mkstr(append(append(append([]value(nil), strBytes(dir)...), strBytes("/")...), strBytes(fmt.Sprintf("%sd%d", pathStr(a[1]), fs.tmpSeq))...))
+		r := i.resolve(fr, name, false)
+		if r.errno != 0 || r.parent == nil {
+			return tuple{"", i.pathError("mkdir", name, pick(r.errno, eNOENT))}
+		}
+		r.parent.addChild(r.name, fs.newNode(nkDir, modeDir|0700))
+		return tuple{name, iface{}}
+	})
+	R("github.com/folbricht/tempfile.nextRand", func(i *interpreter, fr *frame, fn *ssa.Function, a []value) value {
+		i.ps.fs.tmpSeq++
+		return fmt.Sprintf(".%d", 1000+i.ps.fs.tmpSeq)
+	})
+	// extended attributes
+	R("github.com/pkg/xattr.LSet", func(i *interpreter, fr *frame, fn *ssa.Function, a []value) value {
+		r := i.resolve(fr, a[0], false)
+		if r.errno != 0 || r.node == nil {
+			return i.pathError("xattr.lset", a[0], pick(r.errno, eNOENT))
+		}
+		if i.fsFault("xattr") {
+			return i.pathError("xattr.lset", a[0], eOPNOTSUPP)
+		}
+		i.fsMutate(fr, "setxattr", a[0])
+		val := append([]value(nil), a[2].([]value)...)
+		for k := range r.node.xattrs {
+			if i.nameEq(fr, r.node.xattrs[k][0], a[1]) {
+				r.node.xattrs[k][1] = val
+				return iface{}
+			}
+		}
+		r.node.xattrs = append(r.node.xattrs, [2]value{a[1], val})
+		return iface{}
+	})
+	R("github.com/pkg/xattr.LList", func(i *interpreter, fr *frame, fn *ssa.Function, a []value) value {
+		r := i.resolve(fr, a[0], false)
+		if r.errno != 0 || r.node == nil {
+			return tuple{[]value(nil), i.pathError("xattr.llist", a[0], pick(r.errno, eNOENT))}
+		}
+		var out []value
+		for _, kv := range r.node.xattrs {
+			out = append(out, kv[0])
+		}
+		return tuple{out, iface{}}
+	})
+	R("github.com/pkg/xattr.LGet", func(i *interpreter, fr *frame, fn *ssa.Function, a []value) value {
+		r := i.resolve(fr, a[0], false)
+		if r.errno != 0 || r.node == nil {
+			return tuple{[]value(nil), i.pathError("xattr.lget", a[0], pick(r.errno, eNOENT))}
+		}
+		for _, kv := range r.node.xattrs {
+			if i.nameEq(fr, kv[0], a[1]) {
+				return tuple{append([]value(nil), kv[1].([]value)...), iface{}}
+			}
+		}
+		return tuple{[]value(nil), i.pathError("xattr.lget", a[0], eNODATA)}
+	})
+
+	// harness control of the model
+	for _, pfx := range []string{desyncPath + ".", desyncPath + "/cmd/desync."} {
+		p := pfx
+		R(p+"vTempDir", func(i *interpreter, fr *frame, fn *ssa.Function, a []value) value {
+			fs := i.ps.fs
+			fs.tmpSeq++
+			name := fmt.Sprintf("vroot%d", fs.tmpSeq)
+			fs.root.addChild(name, fs.newNode(nkDir, modeDir|0755))
+			return "/" + name
+		})
+		R(p+"vFSFault", func(i *interpreter, fr *frame, fn *ssa.Function, a []value) value {
+			fs := i.ps.fs
+			op := argStr(a[0])
+			if fs.faults[op] == nil {
+				fs.faults[op] = map[int]bool{}
+			}
+			fs.faults[op][a[1].(int)] = true
+			return nil
+		})
+		R(p+"vFSCalls", func(i *interpreter, fr *frame, fn *ssa.Function, a []value) value { return i.ps.fs.calls[argStr(a[0])] })
+		R(p+"vFSMutations", func(i *interpreter, fr *frame, fn *ssa.Function, a []value) value { return len(i.ps.fs.muts) })
+		// vCrashAt(k, short, after): the world stops before the k-th file-system mutation from now
+		// (a write is cut after `short` bytes if short >= 0); `after` then runs as the post-mortem.
+		R(p+"vCrashAt", func(i *interpreter, fr *frame, fn *ssa.Function, a []value) value {
+			fs := i.ps.fs
+			fs.crashAt = len(fs.muts) + a[0].(int)
+			fs.shortWrite = a[1].(int)
+			i.ps.onCrash = a[2]
+			return nil
+		})
+		R(p+"vCrashed", func(i *interpreter, fr *frame, fn *ssa.Function, a []value) value { return i.ps.crashed })
+		R(p+"vSetCanClone", func(i *interpreter, fr *frame, fn *ssa.Function, a []value) value {
+			i.ps.fs.canClone = a[0].(bool)
+			i.ps.fs.cloneEmu = true
+			return nil
+		})
+		R(p+"vFSList", func(i *interpreter, fr *frame, fn *ssa.Function, a []value) value {
+			// all paths below dir (depth first, sorted by insertion), for frame conditions
+			r := i.resolve(fr, a[0], true)
+			var out []value
+			if r.errno != 0 || r.node == nil {
+				return out
+			}
+			var rec func(n *mnode, pfx []value)
+			rec = func(n *mnode, pfx []value) {
+				for k, c := range n.kids {
+					p := append(append(append([]value(nil), pfx...), byte('/')), strBytes(n.names[k])...)
+					out = append(out, mkstr(p))
+					if c.kind == nkDir {
+						rec(c, p)
+					}
+				}
+			}
+			rec(r.node, strBytes(a[0]))
+			return out
+		})
+	}
+}
+
+func pick(a, b int) int {
+	if a != 0 {
+		return a
+	}
+	return b
+}
+
+func baseName(path, last value) value {
+	if last != nil {
+		return last
+	}
+	return path
+}
+
+func (i *interpreter) unwrapErrno(e value) value {
+	ei := e.(iface)
+	if ei.t == nil {
+		return iface{}
+	}
+	// *PathError -> its Errno
+	st := (*ei.v.(*value)).(structure)
+	return st[2]
+}
+
+func (i *interpreter) fsRemove(fr *frame, path value, op string, fileOnly bool) value {
+	if i.fsFault("remove") {
+		return i.pathError(op, path, eIO)
+	}
+	r := i.resolve(fr, path, false)
+	if r.errno != 0 {
+		return i.pathError(op, path, r.errno)
+	}
+	if r.node == nil {
+		return i.pathError(op, path, eNOENT)
+	}
+	if r.idx < 0 {
+		return i.pathError(op, path, eINVAL)
+	}
+	if r.node.kind == nkDir {
+		if fileOnly {
+			return i.pathError(op, path, eISDIR)
+		}
+		if len(r.node.kids) > 0 {
+			return i.pathError(op, path, eNOTEMPTY)
+		}
+	}
+	i.fsMutate(fr, op, path)
+	r.parent.removeChild(r.idx)
+	return iface{}
+}
+
+func (i *interpreter) createTemp(fr *frame, dir, pattern value) value {
+	fs := i.ps.fs
+	fs.tmpSeq++
+	if strLen(dir) == 0 {
+		dir = "/tmp"
+	}
+	pat := pathStr(pattern)
+	suffix := ""
+	if k := strings.LastIndex(pat, "*"); k >= 0 {
+		pat, suffix = pat[:k], pat[k+1:]
+	}
+	name := mkstr(append(append(append([]value(nil), strBytes(dir)...), byte('/')), strBytes(fmt.Sprintf("%s%d%s", pat, 5000+fs.tmpSeq, suffix))...))
+	return i.openFile(fr, name, oRDWR|oCREATE|oEXCL, 0600)
+}
+
+// fsDump renders the model tree (debugging / evidence samples).
+func (i *interpreter) fsDump() string {
+	var sb strings.Builder
+	var rec func(n *mnode, pfx string)
+	rec = func(n *mnode, pfx string) {
+		type ent struct {
+			name string
+			n    *mnode
+		}
+		var es []ent
+		for k, c := range n.kids {
+			es = append(es, ent{pathStr(n.names[k]), c})
+		}
+		sort.Slice(es, func(a, b int) bool { return es[a].name < es[b].name })
+		for _, e := range es {
+			fmt.Fprintf(&sb, "%s/%s kind=%d len=%d\n", pfx, e.name, e.n.kind, len(e.n.data))
+			if e.n.kind == nkDir {
+				rec(e.n, pfx+"/"+e.name)
+			}
+		}
+	}
+	rec(i.ps.fs.root, "")
+	return sb.String()
+}
+
+var _ = token.NoPos
